@@ -512,7 +512,7 @@ def _get_spendable_utxos(transaction: sqlite3.Connection, accounts: List, decode
         INNER JOIN account_address USING (address)
         LEFT JOIN txi USING (txoid)
         INNER JOIN tx USING (txid)
-        WHERE txo.txo_type=0 AND txi.txoid IS NULL AND tx.txid IS NOT NULL AND NOT txo.is_reserved
+        WHERE txo.txo_type IN (0, 4) AND txi.txoid IS NULL AND tx.txid IS NOT NULL AND NOT txo.is_reserved
         AND txo.amount >= ? AND txo.amount < ?
     """
     if accounts:
